@@ -440,6 +440,18 @@ class Evaluator:
             return ('call', 'lib:' + n, args)
         # ---- repository function
         self.trace.calls.append((q, loc))
+        hook = getattr(self, 'opaque_hook', None)
+        if hook is not None:
+            opath = None
+            if obj is not None:
+                ob = strip(obj, casts=True)
+                if ob.get('k') == 'member':
+                    opath = self.mpath(ob, P, fr)
+                elif ob.get('k') == 'this':
+                    opath = fr['this']
+            r = hook(e, opath, n, lambda: tuple(self.E(a, P, fr) for a in args_e))
+            if r is not None:
+                return r
         if n in self.noreturn:
             args = tuple(self.E(a, P, fr) for a in args_e)
             P.events.append(('noreturn-call', (n, args), loc))
